@@ -246,7 +246,15 @@ func c20Build(v V, t reflect.Type) reflect.Value {
 }
 
 // c20Arg turns the top-level description into the interface{} argument.
-func c20Arg(v V) interface{} {
+// Any failure to BUILD the value (ill-formed or ill-typed description, e.g. one
+// produced by the shrinker) is a harness error (exit 2), never an observation:
+// only a panic inside size.Of / size.Stat is recorded as P.
+func c20Arg(v V) (data interface{}) {
+	defer func() {
+		if e := recover(); e != nil {
+			c20Fatal("cannot build the value: %v", e)
+		}
+	}()
 	if v.IsList() && len(v.L) == 1 && !v.L[0].IsList() && v.L[0].Z.Sign() == 0 {
 		return nil
 	}
